@@ -276,3 +276,48 @@ PLANS["C17"] = {
                  R("readn", "asan", script_len=4, wrapper_script_len=3, cases=100000),
                  R("readn", "miri", sweep=0, cases=160, timeout=3000, miriflags="-Zmiri-disable-isolation -Zmiri-disable-stacked-borrows")],
 }
+
+PLANS["C11"] = {
+    "level": "exploration",
+    "technique": "independent layout builder (stable sort by little-endian tag, count, N-1 running sums, tags, values) compared byte-for-byte with what MessageWrapper emits into an OwningIovec or an hcobs Encoder, rough_tlv_len check (also for nested wrappers), MessageView read-back; arithmetic acceptance predicate probed with length-claiming values",
+    "rule": ("cases = (a) pair lists: count 0..8 (sometimes 50..300), tags from a small universe (forces repeats) incl. 0, u32::MAX and tags whose "
+             "little-endian and byte-wise orders disagree, value lengths 0..600; value kinds &[u8], &str, Cow<[u8]> and Cow<str> (borrowed and owned "
+             "mixed), &MessageWrapper nested 2 and 3 deep, MessageView as a value; constructors new / new_from_slice / new_from_sorted (sorted and "
+             "unsorted inputs); sinks OwningIovec and hcobs::Encoder (decoded again by the real Decoder). Oracle: emitted bytes == independent layout, "
+             "rough_tlv_len == emitted length (every nesting level), MessageView accepts and returns the stably sorted pairs through iter / get / "
+             "find, new_from_sorted rejects iff some tag decreases. (b) limits: lists of values that only CLAIM a length (never encoded), lengths "
+             "aimed at i32::MAX-2..+2 for single values and for the total; verdict must equal the arithmetic predicate of the statement. non-trivial "
+             "= every case; distinct = distinct (value kind, constructor, sink, count class, repeated-tags, boundary class)."),
+    "assumptions": ["the pair-count limit (> i32::MAX pairs) is implied by the total-length limit (8N > i32::MAX for N >= 2^28); it is probed at "
+                    "N = 2^28-1 / 2^28 with zero-sized values in the thorough tier only (1 GiB vector)",
+                    "borrowed values outlive the sink: the harness owns every buffer for the whole case"],
+    "required_features": ["tlv.c11.kind.Bytes", "tlv.c11.kind.Str", "tlv.c11.kind.CowBytes", "tlv.c11.kind.CowStr", "tlv.c11.kind.Nested2",
+                          "tlv.c11.kind.Nested3", "tlv.c11.kind.View", "tlv.c11.ctor.New", "tlv.c11.ctor.FromSlice", "tlv.c11.ctor.FromSorted",
+                          "tlv.c11.sink.Hcobs", "tlv.c11.repeated_tags", "tlv.c11.empty_list", "tlv.c11.single_pair", "tlv.c11.large_list",
+                          "tlv.c11.limits.accepted", "tlv.c11.limits.rejected", "tlv.c11.limits.total_exactly_i32_max",
+                          "tlv.c11.limits.total_one_over", "tlv.c11.limits.single_value_one_over"],
+    "quick": [R("tlv-c11", "dbg", cases=1500000, claim_cases=1500000)],
+    "thorough": [R("tlv-c11", "dbg", cases=20000000, claim_cases=10000000),
+                 R("tlv-c11", "rel", cases=40000000, claim_cases=20000000, count_probe=0),
+                 R("tlv-c11", "miri", cases=300, claim_cases=300, timeout=3000, miriflags="-Zmiri-disable-isolation -Zmiri-disable-stacked-borrows")],
+}
+PLANS["C12"] = {
+    "level": "exploration",
+    "technique": "independent parser + accessor-agreement monitor (len/tags/iter/get/get_value/find/find_tag/tags_match_exactly, tiling of the payload, out-of-range indices) under catch_unwind on exhaustive small word-level messages, header surgery, truncations; Miri on a slice for the tag-array pointer cast",
+    "rule": ("cases = byte strings: EVERY message of up to W little-endian words over {0,1,2,3,4,8,2^32-1} with 0..3 trailing bytes (exhaustive "
+             "sub-sweep); valid messages and header surgery on them (N := 0, N+-1, huge N / N near 2^29..2^32, offsets equal / decreasing / last "
+             "offset at payload end +-1, tags equal / decreasing, trailing bytes, truncation, bit flips, double surgery), random bytes, every "
+             "truncation of a set of valid messages; each as borrowed and as owned Cow. Oracle: accept/reject == independent parser; on accept no "
+             "accessor panics, len/is_empty/tags agree, iter yields N items equal to get(i) and (tags[i], get_value(i)), values tile bytes[8N..] "
+             "exactly and in order, get/get_value are None for i in {N, N+1, 2N, 2N+1, usize::MAX-1, usize::MAX}, find(t) returns a value stored "
+             "under exactly t (pointer-identical) or None when absent (present tags, neighbours +-1, 0, 1, u32::MAX). non-trivial = accepted "
+             "message (accessors exercised); distinct = distinct message (sweep) or distinct (input kind, N class, length class)."),
+    "assumptions": ["exhaustive only for the stated word alphabet and length; random beyond"],
+    "required_features": ["tlv.c12.accepted", "tlv.c12.rejected", "tlv.c12.accepted_empty_messages", "tlv.c12.lookups_of_repeated_tags",
+                          "tlv.c12.input.n huge", "tlv.c12.input.last offset at payload end +-1", "tlv.c12.input.offsets decreasing",
+                          "tlv.c12.input.tags decreasing", "tlv.c12.truncation_points"],
+    "quick": [R("tlv-c12", "dbg", sweep_words=7, cases=3000000)],
+    "thorough": [R("tlv-c12", "dbg", sweep_words=9, cases=40000000),
+                 R("tlv-c12", "rel", sweep=0, cases=100000000),
+                 R("tlv-c12", "miri", sweep=0, cases=2000, timeout=3000)],
+}
